@@ -153,7 +153,30 @@ def h_value_node_reader():
     return lsl.GraphBuilder().add(y).build_model(), spec, ["mu", "y"]
 
 
-FAMILY = {"derived node reading the value node": h_value_node_reader, "root with a derived scale": h_derived_root, "direct": h_direct, "direct, built with copy=True": h_direct_copy, "uniform root": h_uniform, "int-typed current value": h_intarray, "user-named dist nodes": h_named, "via-calc": h_calc, "diamond": h_diamond, "per_obs=False": h_perobs, "two-level+matrix": h_twolevel}
+def h_mixed_args():
+    """the child's distribution gets one POSITIONAL parameter (loc) and one KEYWORD parameter (scale = 1 + tau^2, derived from the parent drawn
+    just before through an intermediate Calc): both kinds of input have to reflect the values drawn so far, also with auto-update off"""
+    import liesel.model as lsl
+    h = _hp(tau_scale=1.0, y_loc=0.7)
+    tau = lsl.Var(0.5, lsl.Dist(tfd().Normal, loc=0.0, scale=h["tau_scale"]), name="tau")
+    sc = lsl.Calc(lambda t: 1.0 + t * t, tau, _name="sc")
+    y = lsl.Var(jnp.zeros(2), lsl.Dist(tfd().Normal, h["y_loc"], scale=sc), name="y")
+    spec = {"tau": ((), lambda v: 0, lambda v: v["tau_scale"]), "y": ((2,), lambda v: v["y_loc"], lambda v: 1 + v["tau"] * v["tau"])}
+    return lsl.GraphBuilder().add(y).build_model(), spec, ["tau", "y"]
+
+
+def h_mixed_args2():
+    """as above with the roles swapped: positional loc derived from the drawn parent, keyword scale a hyper-parameter; positional-only parent"""
+    import liesel.model as lsl
+    h = _hp(mu_loc=1.0, mu_scale=2.0, y_scale=0.5)
+    mu = lsl.Var(0.0, lsl.Dist(tfd().Normal, h["mu_loc"], h["mu_scale"]), name="mu")
+    mid = lsl.Calc(lambda m: 2.0 * m + 1.0, mu, _name="mid")
+    y = lsl.Var(jnp.zeros(2), lsl.Dist(tfd().Normal, mid, scale=h["y_scale"]), name="y")
+    spec = {"mu": ((), lambda v: v["mu_loc"], lambda v: v["mu_scale"]), "y": ((2,), lambda v: 2 * v["mu"] + 1, lambda v: v["y_scale"])}
+    return lsl.GraphBuilder().add(y).build_model(), spec, ["mu", "y"]
+
+
+FAMILY = {"mixed positional / keyword parameters": h_mixed_args, "positional parameters, derived loc": h_mixed_args2, "derived node reading the value node": h_value_node_reader, "root with a derived scale": h_derived_root, "direct": h_direct, "direct, built with copy=True": h_direct_copy, "uniform root": h_uniform, "int-typed current value": h_intarray, "user-named dist nodes": h_named, "via-calc": h_calc, "diamond": h_diamond, "per_obs=False": h_perobs, "two-level+matrix": h_twolevel}
 
 
 def scenario(chk, hname, auto, skip, stale=False):
@@ -290,7 +313,9 @@ def main():
                 ("via-calc", True, (), True), ("diamond", True, ("m",), True), ("two-level+matrix", False, (), True),
                 ("root with a derived scale", True, (), True), ("root with a derived scale", False, (), True), ("root with a derived scale", True, ("y",), True), ("root with a derived scale", True, ()),
                 ("via-calc", False, (), "twice"), ("diamond", True, ("m",), "twice"),
-                ("derived node reading the value node", True, ()), ("derived node reading the value node", False, ())]
+                ("derived node reading the value node", True, ()), ("derived node reading the value node", False, ()),
+                ("mixed positional / keyword parameters", False, ()), ("mixed positional / keyword parameters", True, ()),
+                ("positional parameters, derived loc", False, ()), ("positional parameters, derived loc", True, (), True)]
     else:
         plan = []
         for h in FAMILY:
